@@ -177,7 +177,7 @@ def f_sequence(case):
     pool = {}        # generator objects are reused across the steps of one history (a rotation must not change its generator)
 
     def gen_obj(step):
-        key = (step['gen'], tuple(step['qubits']))
+        key = step['gen']          # one object per distinct generator, whatever qubits it is applied to
         if key not in pool:
             gl, gk = ref.parse(step['gen'])
             pool[key] = Bk.plist(np.array([gl, gl]), [gk, gk])[0] if (len(pool) + case.get('salt', 0)) % 2 else Bk.pauli(gl, gk)
@@ -208,9 +208,15 @@ def f_sequence(case):
 
 def st_seq(be, hiN):
     def inner(N):
-        step = st.integers(1, N).flatmap(lambda n: st.fixed_dictionaries({'gen': gen.st_herm(n), 'qubits': gen.st_subset(N, n)}))
+        fresh = st.integers(1, N).flatmap(lambda n: st.fixed_dictionaries({'gen': gen.st_herm(n), 'qubits': gen.st_subset(N, n)}))
+
+        def with_pool(pool):
+            # half of the steps take their generator from a small pool, so that the same generator (object) meets several different masks
+            pooled = st.sampled_from(pool).flatmap(lambda g: st.fixed_dictionaries({'gen': st.just(g), 'qubits': gen.st_subset(N, len(g) - 1)}))
+            return st.lists(st.one_of(fresh, pooled, pooled), min_size=1, max_size=8)
+        steps = st.lists(st.integers(1, N).flatmap(lambda n: gen.st_herm(n, nonidentity=True)), min_size=1, max_size=2).flatmap(with_pool)
         return st.fixed_dictionaries({'be': st.just(be), 'N': st.just(N), 'ops': st.lists(gen.st_pauli(N), min_size=1, max_size=5),
-                                      'steps': st.lists(step, min_size=1, max_size=8), 'salt': st.integers(0, 1)})
+                                      'steps': steps, 'salt': st.integers(0, 1)})
     return st.integers(1, hiN).flatmap(inner)
 
 
